@@ -185,6 +185,18 @@ def items_for(header, kinds=("plain", "deprecated", "never")):
         yield f"{hid}/{kind}/Error/named", D("Debug", "Display", "Error") + ' #[display("e")] ' + f"pub struct S{decl} {where} {{ {body} }}"
         yield f"{hid}/{kind}/Error/enum", D("Debug", "Display", "Error") + " " + enum_item(decl, where, fl, dep=depb).replace("Alpha(", '#[display("a")] Alpha(#[error(source)] Src, ').replace(
             "BetaGamma {", '#[display("b")] BetaGamma { source: Src, ').replace("Unit", '#[display("u")] Unit')
+        # --- ignored members (the generated `match` / impl set must stay complete)
+        tup = ", ".join(fl)
+        yield f"{hid}/{kind}/Error/enum-ignored-variant", D("Debug", "Display", "Error") + f' pub enum E{decl} {where} {{ #[display("a")] Alpha {{ source: Src }}, #[display("o")] #[error(ignore)] Other({tup}), #[display("p")] #[error(ignore)] Plain }}'
+        yield f"{hid}/{kind}/Error/enum-ignored-field", D("Debug", "Display", "Error") + f' pub enum E{decl} {where} {{ #[display("a")] Alpha(#[error(ignore)] u8, #[error(source)] Src), #[display("o")] Other(#[error(ignore)] Src, {tup}) }}'
+        yield f"{hid}/{kind}/Error/struct-ignored-field", D("Debug", "Display", "Error") + f' #[display("s")] pub struct S{decl}(#[error(ignore)] pub Src, {", ".join("pub " + t for t in fl)}) {where};'
+        yield f"{hid}/{kind}/IsVariant/ignored", D("IsVariant") + f" pub enum E{decl} {where} {{ Alpha({tup}), #[is_variant(ignore)] BetaGamma({tup}), Unit }}"
+        yield f"{hid}/{kind}/Unwrap/ignored", D("Unwrap", "TryUnwrap") + f" #[unwrap(ref)] #[try_unwrap(ref_mut)] pub enum E{decl} {where} {{ Alpha({tup}), #[unwrap(ignore)] #[try_unwrap(ignore)] BetaGamma({tup}), Unit }}"
+        yield f"{hid}/{kind}/Debug/skip", D("Debug") + f" pub struct S{decl}(#[debug(skip)] pub u8, {', '.join('pub ' + t for t in fl)}) {where};"
+        yield f"{hid}/{kind}/Debug/enum-skip", D("Debug") + f" pub enum E{decl} {where} {{ Alpha(#[debug(skip)] u8, {tup}), BetaGamma {{ #[debug(ignore)] x: u8, y: ({tup},) }} }}"
+        if kind != "never":
+            yield f"{hid}/{kind}/AsRef/skip", D("AsRef", "AsMut") + f" pub struct S{decl} {where} {{ #[as_ref(skip)] #[as_mut(skip)] pub skipped: u8, pub f: ({', '.join(fields)},) }}"
+            yield f"{hid}/{kind}/From/enum-explicit", D("From") + f" pub enum E{decl} {where} {{ #[from] Alpha({', '.join(fields)}), BetaGamma({', '.join(fields)}), #[from(ignore)] Unit }}"
     # --- field-less enums: only lifetime-free, type-free headers can be declared without using their parameters
     if hid in ("none", "const_only"):
         for kind in kinds:
